@@ -34,6 +34,7 @@ def base_axioms(c):
 class SI:
     """Symbolic int."""
     _vcx_symbolic = True
+    __array_ufunc__ = None      # numpy scalars defer binary operators to the proxy
     __slots__ = ("t",)
 
     def __init__(self, t):
@@ -164,6 +165,7 @@ def realval(x):
 class SF:
     """Symbolic float (see module docstring)."""
     _vcx_symbolic = True
+    __array_ufunc__ = None
     __slots__ = ("r", "nan", "minf")
 
     def __init__(self, r, nan=None, minf=False):
@@ -426,6 +428,9 @@ def _mono_axioms(c, op):
     else:
         body = z3.Implies(z3.And(fin4, b > 0, b == b2, a <= a2), f(a, b) <= f(a2, b2))
     c.axiom(("mono", op), z3.ForAll([a, b, a2, b2], body, patterns=[z3.MultiPattern(f(a, b), f(a2, b2))]))
+    if op in ("add", "mul"):
+        # IEEE addition and multiplication are commutative
+        c.axiom(("comm", op), z3.ForAll([a, b], f(a, b) == f(b, a), patterns=[f(a, b)]))
 
 
 def fsqrt(x):
